@@ -746,9 +746,25 @@ def rd_getattr_protocol(I, o):
     return None
 
 
+def rd_setattr_protocol(I, o, v):
+    """rep invariant of Response (relied on by Response.__str__/prepare, C15): `protocol` is the version text of the status line
+    ('HTTP/x.y').  HTTP.protocol / Request.protocol are (major, minor) tuples - storing one of those would put '(1, 1) 505 ...'
+    on the wire, which is no HTTP response at all"""
+    if o.cls != 'Response':
+        return False
+    ok = isinstance(v, VStr) and not v.is_bytes
+    I.oblige('response_protocol_is_the_version_text_of_the_status_line', z3.BoolVal(ok),
+             detail='Response.protocol assigned %r' % (v,))
+    if ok:
+        return False
+    I.st.write_field(o.t, 'protocol', sym(I, 'unknown_protocol_text', Str))
+    return True
+
+
 SPECS.append(FucSpec(
     'C14', HTTP, 'HTTP._on_read', rd_setup, rd_post, fields=P_FIELDS, calls=READ_CALLS,
     getattr_hooks={'protocol': rd_getattr_protocol, 'headers': lambda I, o: ReqHeaders() if o.cls == 'Request' else None},
+    setattr_hooks={'protocol': rd_setattr_protocol},
     hasattr_hooks={'getpeercert': lambda I, o: VBool(False)}, cover=['return', 'rejected', 'request', 'wait', 'tls_hello'],
     env={'BAD_FIRST_LINE': VInt(0)},
     clause='_on_read, per call and for every parser outcome: nothing (wait), close (TLS hello on a plain port), one httperror, one redirect '
